@@ -10,6 +10,8 @@ pub mod c09;
 pub mod c10;
 pub mod c13;
 pub mod c14;
+pub mod c15;
+pub mod c16;
 pub mod c17;
 pub mod hist;
 
@@ -34,6 +36,8 @@ pub fn run(cfg: &RunCfg) -> i32 {
         "C10" => c10::run(cfg),
         "C13" => c13::run(cfg),
         "C14" => c14::run(cfg),
+        "C15" => c15::run(cfg),
+        "C16" => c16::run(cfg),
         "C17" => c17::run(cfg),
         other => {
             eprintln!("unknown property {other}");
@@ -90,6 +94,28 @@ pub fn replay(prop: &str, file: &str) -> i32 {
             "C13" => serde_json::from_value::<c13::Case>(case.clone())
                 .map_err(|e| Failure::new("replay.parse", "a C13 case", e.to_string()))
                 .and_then(|c| c13::check_case(&c, &strict).map(|_| ())),
+            "C15" => {
+                if _part == "containment" {
+                    serde_json::from_value::<c15::Containment>(case.clone())
+                        .map_err(|e| Failure::new("replay.parse", "a C15 containment pair", e.to_string()))
+                        .and_then(|c| c15::check_containment(&c).map(|_| ()))
+                } else {
+                    serde_json::from_value::<c15::SessionCase>(case.clone())
+                        .map_err(|e| Failure::new("replay.parse", "a C15 session case", e.to_string()))
+                        .and_then(|c| c15::check_session(&c, &strict).map(|_| ()))
+                }
+            }
+            "C16" => {
+                if _part == "delay" {
+                    serde_json::from_value::<c16::DelayCase>(case.clone())
+                        .map_err(|e| Failure::new("replay.parse", "a C16 delay case", e.to_string()))
+                        .and_then(|c| c16::check_delay(&c).map(|_| ()))
+                } else {
+                    serde_json::from_value::<c16::ContentCase>(case.clone())
+                        .map_err(|e| Failure::new("replay.parse", "a C16 content case", e.to_string()))
+                        .and_then(|c| c16::check_content_case(&c, &strict).map(|_| ()))
+                }
+            }
             "C17" => serde_json::from_value::<c17::Case>(case.clone())
                 .map_err(|e| Failure::new("replay.parse", "a C17 case", e.to_string()))
                 .and_then(|c| c17::check_case(&c, &strict).map(|_| ())),
